@@ -133,43 +133,24 @@ func ruleSetValidation(w *World, r *Report) {
 	r.Check(keyNonNil, rule, "(*Collection).SetItem › rejects a nil key", w.InstrPos(first), "Key != nil (directly or through len >= 1)", "a nil key is not rejected before the first effect")
 	r.Check(valNonNil, rule, "(*Collection).SetItem › rejects a nil value", w.InstrPos(first), "Val != nil", "a nil value is not rejected before the first effect")
 	r.Check(prio.lo == 0 && math.IsInf(prio.hi, 1), rule, "(*Collection).SetItem › accepts exactly Priority >= 0", w.InstrPos(first), "priority interval [0, +inf)", fmt.Sprintf("before its first effect SetItem knows only %v <= Priority <= %v", prio.lo, prio.hi))
-	// every rejecting arm returns an error straight away
+	// every way out of the function that does not pass the first effect returns a definite
+	// error (paths the values rule out are not explored)
 	okArms := true
-	eachInstr(fn, func(in ssa.Instruction) {
-		ifi, ok := in.(*ssa.If)
-		if !ok || !instrDominates(in, first) {
-			return
+	idxErr := errResultIndex(fn)
+	wkA := &Walker{Fn: fn}
+	wkA.OnInstr = func(env *Env, in ssa.Instruction, trail []*ssa.BasicBlock) bool {
+		if in == first {
+			return true
 		}
-		for i, s := range in.Block().Succs {
-			if s.Dominates(first.Block()) || s == first.Block() {
-				continue
-			}
-			_ = i
-			// the arm that does not lead to the effects: must return a non-nil error with no library call
-			if reachesBlock(s, first.Block()) {
-				continue
-			}
-			good := false
-			for _, x := range s.Instrs {
-				switch y := x.(type) {
-				case *ssa.Return:
-					if isNonNilErrorValue(y.Results[len(y.Results)-1]) {
-						good = true
-					}
-				case *ssa.Store:
-					if isNonNilErrorValue(y.Val) {
-						good = true
-					}
-				case *ssa.If:
-					good = true // another test of the same ||-chain
-				}
-			}
-			if !good {
+		if ret, isRet := in.(*ssa.Return); isRet {
+			if in.Block().Comment != "recover" && (idxErr < 0 || !isNonNilErrorValue(env.Resolve(ret.Results[idxErr]))) {
 				okArms = false
 			}
+			return true
 		}
-		_ = ifi
-	})
+		return false
+	}
+	wkA.Run(nil, nil)
 	r.Check(okArms, rule, "(*Collection).SetItem › every rejecting arm returns an error", w.Pos(fn.Pos()), "errors.New(...) on each failing test", "a failing validation arm does not return an error")
 	r.Floor(rule, 5)
 }
@@ -285,11 +266,32 @@ func ruleLookup(w *World, r *Report) {
 	// Min / Max choosers
 	for api, side := range map[string]string{"(*Collection).MinItem": "left", "(*Collection).MaxItem": "right"} {
 		f := w.Fn(api)
-		if f == nil || len(f.AnonFuncs) != 1 {
-			r.Unknown(rule, api+" › chooser", "-", "API or its chooser closure not found")
+		var cl *ssa.Function
+		if f != nil {
+			// the function value handed to the tree walk: a closure or a named function
+			eachInstr(f, func(in ssa.Instruction) {
+				c, isC := in.(*ssa.Call)
+				if !isC || staticCalleeName(c) != "(*Store).walk" {
+					return
+				}
+				for _, a := range c.Common().Args {
+					v := a
+					if ct, isCT := v.(*ssa.ChangeType); isCT {
+						v = ct.X
+					}
+					switch x := v.(type) {
+					case *ssa.MakeClosure:
+						cl, _ = x.Fn.(*ssa.Function)
+					case *ssa.Function:
+						cl = x
+					}
+				}
+			})
+		}
+		if f == nil || cl == nil || len(cl.Params) == 0 {
+			r.Unknown(rule, api+" › chooser", "-", "API or the chooser it hands to the tree walk not found")
 			continue
 		}
-		cl := f.AnonFuncs[0]
 		ok := true
 		nret := 0
 		eachInstr(cl, func(in ssa.Instruction) {
